@@ -2410,6 +2410,15 @@ func (x *Exec) valEq(s *State, a, b Val, in ssa.Instruction) *Term {
 			if p.Obj == nil {
 				return q.Nil
 			}
+			// two slices (only contracts compare them): same length and same elements
+			pa, ok1 := x.E.objVal(s, p.Obj).(*ArrV)
+			qa, ok2 := x.E.objVal(s, q.Obj).(*ArrV)
+			if ok1 && ok2 && !pa.IsStr && !qa.IsStr && pa.T != nil && qa.T != nil && pa.T.S == qa.T.S {
+				x.E.nextObj++
+				i := Var(fmt.Sprintf("i!eq%d", x.E.nextObj), SInt)
+				return And(Eq(p.Len, q.Len), Forall([]*Term{i}, Implies(And(Le(Int(0), i), Lt(i, p.Len)),
+					Eq(Select(pa.T, Add(p.Off, i)), Select(qa.T, Add(q.Off, i))))))
+			}
 		}
 	case *MapV:
 		if q, ok := b.(*MapV); ok {
